@@ -345,7 +345,75 @@ fn seq_run(ctx: &Ctx, case: u64, l: u64, rng: &mut SmallRng, local: &mut BTreeMa
     Ok((evictions, h))
 }
 
+/// One store that has to evict, parked between choosing its victim and sweeping the map, while another
+/// connection deletes a record: the round may then find nothing to evict, and the store must go on evicting
+/// until it is back under the limit. With nothing in progress afterwards: stored bytes <= L + that store's record.
+fn evict_race_run(ctx: &Ctx, case: u64, rng: &mut SmallRng, local: &mut BTreeMap<String, u64>) -> Result<(u64, u64), RunErr> {
+    let l = [600u64, 1000, 1500][rng.gen_range(0..3)];
+    let stack = Stack::new(StoreKind::Random(l), 100);
+    let mut conn = Conn::new(stack.memc.clone(), 1 << 20);
+    // fresh keys only: the accounting of the prefix is exact, the store is full (L + the last record at most)
+    let npre = rng.gen_range(3..7usize);
+    for i in 0..npre {
+        let len = rng.gen_range(60..(l as usize / 2));
+        let _ = one(&mut conn, W::Set { k: 100 + i, len, ttl: 0, cas: 0 }.frame(0).unwrap());
+    }
+    let present: Vec<usize> = (0..npre).filter(|i| stored_len(&stack, &keyname(100 + i)).is_some()).collect();
+    if present.len() < 2 {
+        return Ok((0, 0));
+    }
+    let victim = present[rng.gen_range(0..present.len())];
+    let ulen = rng.gen_range(40..120usize);
+    let progs = [W::Set { k: 1, len: ulen, ttl: 0, cas: 0 }, W::Delete { k: 100 + victim, cas: 0 }];
+    let point = ["policy.evict.pick", "policy.evict.pick", "policy.evict.pick", "policy.accounted", "policy.evict.done"][rng.gen_range(0..5)];
+    let parks = vec![Park { client: 0, point, nth: 0, wait_for: vec![1] }];
+    let ctl = Ctl::new(2, parks, None, ctx.case_seed("evict-race", case));
+    let barrier = Arc::new(Barrier::new(2));
+    let mut handles = vec![];
+    let results: Arc<Mutex<HashMap<usize, u16>>> = Arc::new(Mutex::new(HashMap::new()));
+    for (ci, w) in progs.iter().enumerate() {
+        let (ctl, memc, w, barrier, results) = (ctl.clone(), stack.memc.clone(), w.clone(), barrier.clone(), results.clone());
+        handles.push(std::thread::spawn(move || {
+            gate::bind(Some((ctl.clone(), ci)));
+            let mut conn = Conn::new(memc, 1 << 20);
+            barrier.wait();
+            if ci == 1 {
+                std::thread::sleep(Duration::from_millis(if cfg!(miri) { 100 } else { 5 }));
+            }
+            let r = one(&mut conn, w.frame(ci as u32).unwrap());
+            results.lock().unwrap().insert(ci, r.map(|r| r.status).unwrap_or(0xffff));
+            ctl.op_done(ci);
+            ctl.finished(ci);
+            gate::bind(None);
+        }));
+    }
+    for h in handles {
+        let _ = h.join();
+    }
+    *local.entry("evict_race:runs".into()).or_insert(0) += 1;
+    *local.entry("evict_race:windows_hit".into()).or_insert(0) += ctl.windows_hit.load(Ordering::SeqCst);
+    let evictions = ctl.counts.lock().unwrap().get("policy.evict.done").copied().unwrap_or(0);
+    let stored_ok = results.lock().unwrap().get(&0) == Some(&st::OK);
+    let (n, bytes) = stack.content_size();
+    let urec = stored_len(&stack, &keyname(1)).unwrap_or(24 + ulen as u64);
+    *local.entry("evict_race:size_comparisons".into()).or_insert(0) += 1;
+    if stored_ok && bytes > l + urec {
+        return Err((
+            Viol::new(
+                &["C14"],
+                "over-limit-evict-vs-delete",
+                format!("limit {}: a store of a {}-byte record parked at {} while another connection deleted a record; with nothing in progress afterwards {} bytes are stored in {} records > limit + that record", l, urec, point, bytes, n),
+            ),
+            json!({"engine":"evict-race","case":case,"limit":l,"park":point,"stored":bytes,"records":n,"replay_cmd":format!("/verif/check C14 replay --case {}", case)}),
+        ));
+    }
+    Ok((evictions, 4000 + npre as u64))
+}
+
 fn batch_run(ctx: &Ctx, case: u64, l: u64, rng: &mut SmallRng, local: &mut BTreeMap<String, u64>) -> Result<(u64, u64), RunErr> {
+    if rng.gen_bool(0.5) {
+        return evict_race_run(ctx, case, rng, local);
+    }
     let stack = Stack::new(StoreKind::Random(l), 100);
     let mut conn = Conn::new(stack.memc.clone(), 1 << 20);
     // pre-fill
